@@ -192,7 +192,7 @@ def rand_field(rng, d, family=None):
     """Elevation field spec {k, m, e | base}.  Families exercise ties, plateaus, nested bowls,
     distinct values, negative levels, subnormal / huge scales and chains of adjacent doubles."""
     n = grid_size(d)
-    fam = family or rng.choice(["tied", "tied", "tied3", "distinct", "bowl", "neg", "sub", "huge", "ulp", "flat", "lowest"])
+    fam = family or rng.choice(["tied", "tied", "tied3", "distinct", "bowl", "neg", "sub", "huge", "ulp", "flat"])
     if fam == "tied":
         lv = rng.randint(2, 5)
         return dict(k="int", m=[rng.randrange(lv) for _ in range(n)], e=0)
